@@ -828,6 +828,12 @@ func TestRepo(t *testing.T) {
 					}
 				}
 				cs.Reps, cs.Procs, cs.WReps = r, p, w
+				if fp.many {
+					// A two-entry map is iterated in the other order
+					// once in eight times: 40+6 samples miss an order
+					// dependence with probability 0.3 %.
+					cs.Reps = 40
+				}
 				if fp.slow {
 					cs.Reps, cs.WReps = 6, 1
 					for i := range cs.History {
